@@ -26,12 +26,18 @@ import (
 
 type op struct {
 	kind, path, from, value string
+	spell                   int // index into spellings: how the member names op / path / from are written
 }
 
+// Member names as RFC 6902 writes them, and in other letter case. The RFC 6902 library looks names up exactly, so an
+// operation with "From" has no "from"; a decoder that matches names case-insensitively (Go structs do) would see one.
+var spellings = [][3]string{{"op", "path", "from"}, {"op", "path", "From"}, {"Op", "path", "from"}, {"op", "Path", "from"}, {"OP", "PATH", "FROM"}, {"op", "path", "FROM"}}
+
 func (o op) json() string {
-	s := fmt.Sprintf(`{"op":%q,"path":%q`, o.kind, o.path)
+	n := spellings[o.spell]
+	s := fmt.Sprintf(`{%q:%q,%q:%q`, n[0], o.kind, n[1], o.path)
 	if o.kind == "move" || o.kind == "copy" {
-		s += fmt.Sprintf(`,"from":%q`, o.from)
+		s += fmt.Sprintf(`,%q:%q`, n[2], o.from)
 	}
 	if o.kind == "add" || o.kind == "replace" || o.kind == "test" {
 		s += `,"value":` + o.value
@@ -40,10 +46,14 @@ func (o op) json() string {
 }
 
 func (o op) key() string {
-	if o.kind == "move" || o.kind == "copy" {
-		return o.kind + " from=" + o.from + " path=" + o.path
+	sp := ""
+	if o.spell != 0 {
+		sp = fmt.Sprintf(" names=%v", spellings[o.spell])
 	}
-	return o.kind + " path=" + o.path
+	if o.kind == "move" || o.kind == "copy" {
+		return o.kind + " from=" + o.from + " path=" + o.path + sp
+	}
+	return o.kind + " path=" + o.path + sp
 }
 
 var paths = []string{"", "/", "/publicKey", "/publicKey/0", "/publicKey/0/id", "/publicKey/-", "/service", "/service/0", "/service/0/serviceEndpoint",
@@ -86,14 +96,23 @@ func build() setup {
 	var singles []op
 	for _, p := range paths {
 		for _, v := range values {
-			singles = append(singles, op{"add", p, "", v}, op{"replace", p, "", v}, op{"test", p, "", v})
+			singles = append(singles, op{"add", p, "", v, 0}, op{"replace", p, "", v, 0}, op{"test", p, "", v, 0})
 		}
-		singles = append(singles, op{"remove", p, "", ""})
+		singles = append(singles, op{"remove", p, "", "", 0})
 		for _, f := range paths {
 			if f != p && isPrefix(f, p) {
 				continue // into own subtree: C19
 			}
-			singles = append(singles, op{"move", p, f, ""}, op{"copy", p, f, ""})
+			singles = append(singles, op{"move", p, f, "", 0}, op{"copy", p, f, "", 0})
+		}
+	}
+	// the same operations on the protected members with member names in other letter case
+	for sp := 1; sp < len(spellings); sp++ {
+		for _, prot := range []string{"/publicKey", "/publicKey/0", "/service", "/service/0/serviceEndpoint"} {
+			for _, other := range []string{"/zz", "/other"} {
+				singles = append(singles, op{"move", other, prot, "", sp}, op{"copy", other, prot, "", sp}, op{"move", prot, other, "", sp}, op{"copy", prot, other, "", sp})
+			}
+			singles = append(singles, op{"remove", prot, "", "", sp}, op{"replace", prot, "", values[0], sp}, op{"add", prot, "", values[2], sp})
 		}
 	}
 	return setup{docs, singles}
@@ -217,19 +236,19 @@ func Worker(args []string) {
 		}
 		for _, x := range xs {
 			for _, v := range values {
-				run(di, list{a, op{"add", x, "", v}})
-				run(di, list{a, op{"replace", x, "", v}})
-				run(di, list{a, op{"test", x, "", v}})
+				run(di, list{a, op{"add", x, "", v, 0}})
+				run(di, list{a, op{"replace", x, "", v, 0}})
+				run(di, list{a, op{"test", x, "", v, 0}})
 			}
-			run(di, list{a, op{"remove", x, "", ""}})
+			run(di, list{a, op{"remove", x, "", "", 0}})
 			for _, y := range []string{"/publicKey", "/publicKey/0", "/publicKey/-", "/service", "/service/0", "/zz2", "/other"} {
 				if !(x != y && isPrefix(x, y)) {
-					run(di, list{a, op{"move", y, x, ""}})
-					run(di, list{a, op{"copy", y, x, ""}})
+					run(di, list{a, op{"move", y, x, "", 0}})
+					run(di, list{a, op{"copy", y, x, "", 0}})
 				}
 				if !(x != y && isPrefix(y, x)) {
-					run(di, list{a, op{"move", x, y, ""}})
-					run(di, list{a, op{"copy", x, y, ""}})
+					run(di, list{a, op{"move", x, y, "", 0}})
+					run(di, list{a, op{"copy", x, y, "", 0}})
 				}
 			}
 		}
